@@ -107,7 +107,11 @@ class TaggedDetGrammar(DetGrammar[U, V, W], Generic[T, U, V, W]):
         for S in self.tags:
             tags[S] = {}
             for P in self.tags[S]:
-                if isinstance(P, Constant) and P.type in constants:
+                if (
+                    isinstance(P, Constant)
+                    and not P.has_value()
+                    and P.type in constants
+                ):
                     for val in constants[P.type]:
                         tags[S][Constant(P.type, val, True)] = self.tags[S][P]
                 else:
@@ -224,7 +228,11 @@ class ProbDetGrammar(TaggedDetGrammar[float, U, V, W]):
         for S in self.tags:
             tags[S] = {}
             for P in self.tags[S]:
-                if isinstance(P, Constant) and P.type in constants:
+                if (
+                    isinstance(P, Constant)
+                    and not P.has_value()
+                    and P.type in constants
+                ):
                     for val in constants[P.type]:
                         tags[S][Constant(P.type, val, True)] = self.tags[S][P] / len(
                             constants[P.type]
